@@ -327,3 +327,90 @@ Proof.
       * destruct (status _ _ _ _ _ _ R1 Ea Hw) as (-> & _). auto.
       * apply (IH sa sb ossb) with (os' := os') (r := r); auto; try (eapply reach_step; eauto; fail).
 Qed.
+
+(** * C08.4 WaitStatus returns only after everything has finished *)
+Lemma list_eq_nth {A} : forall (l l' : list A), length l' = length l ->
+  (forall j x, nth_error l j = Some x -> nth_error l' j = Some x) -> l' = l.
+Proof.
+  induction l as [|x r IH]; intros [|x' r'] L H; cbn in *; try discriminate; auto.
+  pose proof (H 0 x eq_refl) as H0. cbn in H0. injection H0 as ->. f_equal.
+  apply IH; [lia|]. intros j y E. apply (H (S j)); auto.
+Qed.
+
+Record all_done (s : state) : Prop := {
+  ad_wg : wg s = 0;
+  ad_rd : rd s = RExited \/ rd s = RNone;
+  ad_dp : dp s = DExited \/ dp s = DNone;
+  ad_units : forall u un, nth_error (units s) u = Some un -> u_st un = UFinished;
+  ad_tasks : forall k t, nth_error (tasks s) k = Some t -> finished t = true;
+  ad_inq : inq s = [];
+  ad_running : running s = false;
+  ad_used : used s = [];
+  ad_sem : sem_wait s = [];
+  ad_nbar : nbar s = 0
+}.
+
+Lemma idle_all_done c s : reachf c s -> wg s = 0 -> all_done s.
+Proof.
+  intros R Z. pose proof (reachf_inv _ _ R) as I. pose proof (reachf_inv2 _ _ R) as I2.
+  destruct (reachf_inv8 _ _ R) as [Ic It N].
+  destruct (wg0_dp_rd _ I2 Z) as [Hd Hr]. destruct (ic_dpx _ Ic Hd) as [Q Rn].
+  assert (U : forall u un, nth_error (units s) u = Some un -> u_st un = UFinished) by (apply wg0_all_finished; auto).
+  assert (T : forall k t, nth_error (tasks s) k = Some t -> finished t = true).
+  { intros k t E. pose proof (i_unit _ I _ _ E) as Lt.
+    destruct (nth_error (units s) (t_unit t)) as [un|] eqn:Eu; [|apply nth_error_None in Eu; lia].
+    eapply all_finished_in; [apply (i_fin _ I _ _ Eu); right; eauto|eapply nth_error_In; eauto|reflexivity]. }
+  constructor; auto.
+  - apply (reachf_inv_idle c s); auto.
+  - destruct (sem_wait s) as [|k r] eqn:W; auto. exfalso.
+    destruct (i_wait _ I) as [_ Wt]. destruct (Wt k) as (t & E & St); [rewrite W; left; auto|].
+    specialize (T _ _ E). unfold finished in T. rewrite St in T. discriminate.
+  - unfold invn in N. rewrite N. apply countb_false. intros t Ht. apply In_nth_error in Ht as (k & E).
+    unfold pend. rewrite (T _ _ E). cbn. rewrite andb_false_r. reflexivity.
+Qed.
+
+Theorem wait_after_handlers c s l s' os r : reach c s -> step s l = Some (s', os) -> In (OWaitRet r) os ->
+  all_done s' /\
+  (forall k t, nth_error (tasks s') k = Some t ->
+     t_st t <> TRunning /\ t_st t <> TWaiting /\ t_st t <> TAtAcquire /\ forall o, t_st t <> TAtHandled o).
+Proof.
+  intros R H Hin. pose proof (reach_reachf _ _ R) as Rf.
+  destruct (step_waitret _ _ _ _ _ _ Rf H Hin) as (_ & Z & _).
+  pose proof (idle_all_done _ _ (step_reachf _ _ _ _ _ Rf H) Z) as A. split; auto.
+  intros k t E. pose proof (ad_tasks _ A _ _ E) as F. unfold finished in F.
+  destruct (t_st t); try discriminate; repeat split; try discriminate; intros; discriminate.
+Qed.
+
+(* the wait group stays empty until the next Start: nothing is running, nothing can start *)
+Theorem idle_until_start c s l s' os : reach c s -> wg s = 0 -> step s l = Some (s', os) -> l <> LStart ->
+  wg s' = 0 /\ tasks s' = tasks s /\ units s' = units s /\ same5 s s'.
+Proof.
+  intros R Z H Nl. pose proof (reach_reachf _ _ R) as Rf. pose proof (reachf_inv _ _ Rf) as I.
+  pose proof (reachf_inv2 _ _ Rf) as [B G]. rewrite Z in G.
+  destruct (wg0_dp_rd _ (reachf_inv2 _ _ Rf) Z) as [Hd Hr].
+  pose proof (idle_all_done _ _ Rf Z) as A.
+  apply step_decompose in H as (C & s1 & os1 & Hraw & Hs).
+  assert (R1 : reachf c s1) by (eapply rf_raw; eauto).
+  assert (K : wg s1 = 0 /\ tasks s1 = tasks s /\ units s1 = units s /\ same5 s s1).
+  { pose proof (raw_tchg _ _ _ _ I Hraw) as X.
+    pose proof (raw_ctl _ _ _ _ I Hraw) as CE.
+    destruct CE as [L Rn Wg E' | k s0 s2 Sc Rn H0 P H1 | f L Rd Rn E' | f i L Rd Hf Rn S5 C0 Ri Wa Hq
+                  | L D E' | u L D E' | u un s2 L E Su E1 Hs' | S5 Cp Wa Hc Ln].
+    - congruence.
+    - rewrite (ad_running _ A) in Rn. discriminate.
+    - rewrite Rd in Hr. destruct Hr; discriminate.
+    - rewrite Rd in Hr. destruct Hr; discriminate.
+    - rewrite D in Hd. destruct Hd; discriminate.
+    - rewrite D in Hd. destruct Hd; discriminate.
+    - rewrite (ad_units _ A _ _ E) in Su. discriminate.
+    - unfold ctlp in Cp. injection Cp as _ _ _ W U. repeat split; try congruence; try apply S5.
+      (* no task can change: every one is finished *)
+      apply list_eq_nth; auto. intros j t Ej. destruct (X _ _ Ej) as (t' & Ej' & Ch).
+      rewrite Ej'. f_equal. symmetry. pose proof (ad_tasks _ A _ _ Ej) as F.
+      assert (Ow : owner_in (used s) j = false) by (rewrite (ad_used _ A); reflexivity).
+      destruct Ch as [| O _ _ _ | p o _ St | _ St _ _ | x _ St _ _ _ | o _ St | j0 _ _ St]; auto;
+        try congruence; unfold finished in F; rewrite St in F; discriminate. }
+  destruct K as (Z1 & T1 & U1 & S1).
+  destruct Hs as [(_ & -> & _)|(_ & Hs)]; auto.
+  destruct (settle_idle c _ _ _ _ _ R1 Z1 Hs) as (n & -> & _). cbn. auto.
+Qed.
